@@ -18,7 +18,10 @@ def prebuild():
     apidrive.build()
 
 def run(tier):
-    apidrive.run_seq('C16', tier, 'TestVerifC16', ASSUME, RULE)
+    variants = None
+    if tier == 'thorough':
+        variants = [('json encoding', {'VERIF_ENCODING': 'json', 'VERIF_DEPTH': '3'}), ('', {})]
+    apidrive.run_seq('C16', tier, 'TestVerifC16', ASSUME, RULE, variants=variants)
 
 def replay(path):
     import subprocess
